@@ -1,6 +1,7 @@
 package props
 
 import (
+	"bufio"
 	"bytes"
 	"errors"
 	"fmt"
@@ -223,6 +224,30 @@ func makeReader(kind string, text []byte) (io.Reader, bool /*fails*/, bool /*ok*
 		return &failingReader{data: text[:k]}, true, true
 	case kind == "nil":
 		return nil, true, true
+	case strings.HasPrefix(kind, "consumed-"):
+		// a reader that was partially consumed before the export: its content is what remains
+		junk := []byte("{{.Nope}} already consumed \x00\n")
+		all := append(append([]byte(nil), junk...), text...)
+		switch kind {
+		case "consumed-strings":
+			r := strings.NewReader(string(all))
+			r.Seek(int64(len(junk)), io.SeekStart)
+			return r, false, true
+		case "consumed-bytes":
+			r := bytes.NewReader(all)
+			io.CopyN(io.Discard, r, int64(len(junk)))
+			return r, false, true
+		case "consumed-section":
+			return io.NewSectionReader(bytes.NewReader(all), int64(len(junk)), int64(len(text))), false, true
+		case "consumed-buffer":
+			b := bytes.NewBuffer(all)
+			b.Next(len(junk))
+			return b, false, true
+		case "consumed-bufio":
+			r := bufio.NewReaderSize(bytes.NewReader(all), 16)
+			r.Discard(len(junk))
+			return r, false, true
+		}
 	}
 	return nil, false, false
 }
@@ -263,14 +288,20 @@ var checkC19 = register("C19/export", func(c tplCase) string {
 	}
 	// ---- expected failure classes --------------------------------------------------------------
 	if c.NilReport {
-		var wantErr bool
-		_, perr, _ := stdlib(struct{}{}, text)
-		_ = perr
-		wantErr = true
-		if !wantErr || err == nil {
+		if err == nil {
 			return fmt.Sprintf("%s: nil report exported without error", what)
 		}
-		if readerFails || perr != nil {
+		// a nil report together with a failing reader or a template that does not even
+		// parse exhibits two defects: either sentinel names one of them
+		// (whether the template is bad is decided on a real report of the same level)
+		cc := c
+		cc.NilReport = false
+		_, realRep, bmsg := buildExporter(cc)
+		if bmsg != "" {
+			return ""
+		}
+		_, perr, skip := stdlib(realRep, text)
+		if readerFails || perr != nil || skip {
 			if !isNullPtr && !isInvalidTpl {
 				return fmt.Sprintf("%s: nil report with a bad template/reader must match the null-pointer or the invalid-template sentinel, got %v", what, err)
 			}
@@ -347,12 +378,12 @@ func tplClass(c tplCase) (string, bool) {
 	return "tpl:valid", hasAction
 }
 
-var readerKinds = []string{"string", "string", "string", "reader", "reader", "onebyte", "half", "dataerr", "fail", "nil"}
+var readerKinds = []string{"string", "string", "string", "reader", "reader", "onebyte", "half", "dataerr", "fail", "nil", "consumed-strings", "consumed-bytes", "consumed-section", "consumed-buffer", "consumed-bufio"}
 
 func TestC19(t *testing.T) {
 	c := begin(t, "C19")
 	defer c.end()
-	c.rec.F.Rule = "rapid: (template x report level x language x reader kind x vector). Templates come from a grammar: literal text (ASCII, unicode, lone braces, newlines), field references of all three report levels and through the embedded reports, pipelines (printf, len, html, js, urlquery, print, index, slice, eq/ne/lt.., and/or/not), if/else/with/range, variables, comments, trim markers, define/template/block without recursion, and invalid forms (unknown field or function, field of a higher level, unbalanced or stray actions, bad pipelines, wrong arity). Readers: ExportWithString, bytes.Reader, one-byte, half, data-with-EOF, failing after k bytes, nil interface; nil reports of each level. Oracle A: parse and execute the same text with text/template on the same report value (failure => error matching invalid-template and nil reader; success => identical bytes); oracle B: reflection model for literal + plain-field templates. Thorough adds native fuzzing of the template bytes. Non-trivial = template containing at least one action; distinct by hash of the case."
+	c.rec.F.Rule = "rapid: (template x report level x language x reader kind x vector). Templates come from a grammar: literal text (ASCII, unicode, lone braces, newlines), field references of all three report levels and through the embedded reports, pipelines (printf, len, html, js, urlquery, print, index, slice, eq/ne/lt.., and/or/not), if/else/with/range, variables, comments, trim markers, define/template/block without recursion, and invalid forms (unknown field or function, field of a higher level, unbalanced or stray actions, bad pipelines, wrong arity). Readers: ExportWithString, bytes.Reader, one-byte, half, data-with-EOF, failing after k bytes, nil interface, and partially consumed strings.Reader / bytes.Reader / SectionReader / bytes.Buffer / bufio.Reader (content = what remains); nil reports of each level. Oracle A: parse and execute the same text with text/template on the same report value (failure => error matching invalid-template and nil reader; success => identical bytes); oracle B: reflection model for literal + plain-field templates. Thorough adds native fuzzing of the template bytes. Non-trivial = template containing at least one action; distinct by hash of the case."
 	c.rec.F.Assumptions = []string{"text/template of the toolchain is the reference for rendering (the property says so)", "the oracle uses the same root template name as the library so that self-referential definitions behave identically; templates with call cycles or > 1 MiB output are skipped and counted", "typed-nil readers are outside the property (nil reader = nil interface value)"}
 	tags := []string{"en", "ja", "fr", "und"}
 	c.rapidStage("rapid", pick(20000, 1000000), func(rt *rapid.T) {
